@@ -49,12 +49,15 @@
 #define NEG (-FLT_MAX)
 #define RMAX(a,b) ((a) > (b) ? (a) : (b))
 
-static const float kv_psets[3][3][3] = {
+static const float kv_psets[4][3][3] = {
         { { 5,-4,-4}, {-4, 5,-4}, {-4,-4, 5} },
         { { 5,-4,-4}, {-4, 5,-4}, {-4,-4, 5} },
         { { 5,-1,-1}, {-1, 6, 0}, {-1, 0, 6} },
+        /* set 3: code 0 behaves like X under the default protein matrix (self-score -1): aligning it costs, so only the gap
+           penalties keep identical copies on the diagonal (used by the C08 diagonal-step shapes) */
+        { {-1,-1,-1}, {-1, 5,-1}, {-1,-1, 6} },
 };
-static const float kv_pens[3][3] = { {8, 6, 0}, {8, 6, 8}, {5.5f, 2, 1} };
+static const float kv_pens[4][3] = { {8, 6, 0}, {8, 6, 8}, {5.5f, 2, 1}, {5.5f, 2, 1} };
 static float kv_subm_rows[23][23];
 static float* kv_subm_ptr[23];
 static struct aln_param kv_ap;
